@@ -236,6 +236,8 @@ class Interp:
                 if r.get("size"):
                     RECORD_SIZES[name] = r["size"]
                     RECORD_SIZES.setdefault(name + "_t", r["size"])
+                    if name.endswith("_s"):
+                        RECORD_SIZES.setdefault(name[:-2], r["size"])      # zlib style: typedef struct z_stream_s z_stream
         self.budget = budget
         self.steps = 0
         self.max_forks = max_forks
@@ -698,7 +700,7 @@ class Interp:
         if r is not None:
             return r
         name = clean_type(t or "").replace("struct ", "").replace("const ", "").strip()
-        for cand in (name, name[:-2] if name.endswith("_t") else None):
+        for cand in (name, name[:-2] if name.endswith("_t") else None, name + "_s"):
             if cand and cand in self.P.records:
                 return self.P.records[cand]
         return None
